@@ -6,7 +6,9 @@
    The command works in two phases.  COLLECT (_remove): the product asked for and, with
    recursive, the declared dependencies of its table (Table.dependencies, not recursive; _remove
    recurses itself), each one checked against Uses.users when checkRecursive is on: any user
-   other than the product named on the command line blocks unless force.  Nothing is written
+   other than the product named on the command line blocks unless force (so a product whose only
+   other users are themselves being removed still blocks: the behaviour of the code, kept as it
+   is; the property only demands a refusal when a SURVIVOR needs something).  Nothing is written
    in this phase.  DESTROY (remove): duplicates dropped (_set), then for every collected product
    Eups.undeclare followed by shutil.rmtree of its directory, unless that directory has already
    gone (removedDirs) or is a placeholder (none).
